@@ -106,13 +106,14 @@ enum class Outcome
     scatter_three,  // keeps E/4, three secondaries E/8 each (gamma, e-, gamma), rest deposited
     annihilate,  // (e+ only) absorbed; two gammas sharing avail
     absorb_in_flight,  // like absorb but only offered to a moving particle
+    absorb_subcut_positron,  // absorbed; one e+ below its production cut + a gamma
     size_
 };
 inline char const* to_cstring(Outcome o)
 {
     static char const* const n[] = {"absorb", "scatter_half", "scatter_plus_one", "absorb_two",
                                     "absorb_pair", "absorb_subcut", "unchanged", "scatter_three",
-                                    "annihilate", "absorb_in_flight"};
+                                    "annihilate", "absorb_in_flight", "absorb_subcut_positron"};
     return n[int(o)];
 }
 
@@ -198,6 +199,10 @@ inline std::vector<Outcome> feasible_outcomes(ScriptedShared const& s, int kind,
                 break;
             case Outcome::annihilate:
                 if (kind == 2)
+                    r.push_back(o);
+                break;
+            case Outcome::absorb_subcut_positron:
+                if (avail > 2 * (s.subcut_energy + 2 * electron_mass_mev) * 1.01)
                     r.push_back(o);
                 break;
             default: break;
@@ -389,6 +394,22 @@ struct ScriptedExecutor
                 sec[1].direction = deflect(dir, 1);
                 r = Interaction::from_absorption();
                 r.energy_deposition = E{avail - s.subcut_energy - avail / 2};
+                r.secondaries = {sec, 2};
+                return r;
+            }
+            case Outcome::absorb_subcut_positron: {
+                Secondary* sec = allocate(2);
+                if (!sec)
+                    return fail();
+                sec[0].particle_id = s.positron;
+                sec[0].energy = E{s.subcut_energy};
+                sec[0].direction = deflect(dir, 2);
+                sec[1].particle_id = s.gamma;
+                sec[1].energy = E{avail / 2};
+                sec[1].direction = deflect(dir, 1);
+                r = Interaction::from_absorption();
+                r.energy_deposition
+                    = E{avail - avail / 2 - s.subcut_energy - 2 * electron_mass_mev};
                 r.secondaries = {sec, 2};
                 return r;
             }
@@ -720,7 +741,8 @@ struct LoopConfig
     unsigned rng_seed{20220511};
     std::vector<Outcome> menu{Outcome::absorb, Outcome::scatter_half, Outcome::scatter_plus_one,
                               Outcome::absorb_two, Outcome::absorb_pair, Outcome::absorb_subcut,
-                              Outcome::unchanged, Outcome::scatter_three, Outcome::annihilate};
+                              Outcome::unchanged, Outcome::scatter_three, Outcome::annihilate,
+                              Outcome::absorb_subcut_positron};
     double lowest_electron_energy{0.02};
     bool bookkeeping{false};
     std::vector<StepActionOrder> probes;  // orders at which a ProbeAction is inserted
